@@ -145,7 +145,8 @@ def gen_scenario(seed: int, light: bool = False) -> Dict[str, Any]:
             spec["center"] = [round(x, 6) for x in (p + off)]
             spec["normal"] = [round(x, 6) for x in n]
             if rs.chance(0.5):
-                spec["bounds"] = [round(-rs.uniform(0.05, 0.4), 6), round(rs.uniform(0.05, 0.4), 6)]
+                spec["bounds"] = rs.pick([[round(-rs.uniform(0.05, 0.4), 6), round(rs.uniform(0.05, 0.4), 6)], [0, round(rs.uniform(0.05, 0.4), 6)],
+                                          [round(-rs.uniform(0.05, 0.4), 6), 0.0]])
         elif t == "curve_line":
             d = np.array(direction())
             a, b = rs.uniform(0.2, 0.6), (rs.pick([0.0, rs.uniform(0.0, 0.03)]) if near_end else rs.uniform(0.2, 0.6))
@@ -173,6 +174,8 @@ def gen_scenario(seed: int, light: bool = False) -> Dict[str, Any]:
             # a paraboloid sheet through the vertex: z' = c*(u^2+v^2) in a local frame
             spec["curvature"] = round(rs.uniform(-0.5, 0.5), 4)
             spec["normal"] = direction()
+            # parameter bounds; the vertex sits at (0, 0), which may be exactly on a bound
+            spec["sbounds"] = [rs.pick([[-0.5, 0.5], [0, 0.5], [-0.5, 0], [0.0, 0.3]]), rs.pick([[-0.5, 0.5], [-0.5, 0.5], [0, 0.5], [-0.4, 0.0]])]
         clamps.append(spec)
     sc["clamps"] = clamps
     # links
@@ -315,7 +318,7 @@ def make_clamp(spec: Dict[str, Any], p: np.ndarray, live: Optional[np.ndarray] =
         def fn(params):
             return p0 + params[0] * u + params[1] * v + c * (params[0] ** 2 + params[1] ** 2) * n
 
-        return cb.ParametricSurfaceClamp(p, fn, [[-0.5, 0.5], [-0.5, 0.5]])
+        return cb.ParametricSurfaceClamp(p, fn, [list(b) for b in spec.get("sbounds", [[-0.5, 0.5], [-0.5, 0.5]])])
     raise ValueError(t)
 
 
@@ -373,7 +376,9 @@ def manifold_error(spec: Dict[str, Any], p0: np.ndarray, x: np.ndarray) -> Tuple
         d = x - p0
         a, b = float(np.dot(d, u)), float(np.dot(d, v))
         h = float(np.dot(d, n))
-        msg = None if (abs(a) <= 0.5 + 1e-7 and abs(b) <= 0.5 + 1e-7) else f"surface parameters ({a:.4g}, {b:.4g}) outside [-0.5, 0.5]^2"
+        sb = spec.get("sbounds", [[-0.5, 0.5], [-0.5, 0.5]])
+        inside = sb[0][0] - 1e-6 <= a <= sb[0][1] + 1e-6 and sb[1][0] - 1e-6 <= b <= sb[1][1] + 1e-6
+        msg = None if inside else f"surface parameters ({a:.5g}, {b:.5g}) outside {sb}"
         return abs(h - spec["curvature"] * (a * a + b * b)), msg
     raise ValueError(t)
 
